@@ -49,14 +49,12 @@ def leg_a(d, tier, timeout):
     r = vlib.tlc("MC_CommitTx", os.path.join(vlib.SPEC, "MC_CommitTx.cfg"), env=dict(_sw(), CT_TIER=tier, CT_OUT=cases),
                  workers=8, timeout=timeout, extra=["-continue", "-seed", str(vlib.seed())],
                  name="mc-committx-%s%s" % (tier, "-private" if PRIVATE else ""))
-    m = re.search(r'<<"CT_MATRIX", (\d+), (\d+), (\{[^}]*\})>>', r["out"])
+    m = re.search(r'<<"CT_MATRIX", (\d+), (\d+)>>', r["out"])
     if not m:
         raise vlib.ToolError("MC_CommitTx printed no matrix statistics:\n" + r["out"][-2000:])
-    r["matrix"] = {"bases": int(m.group(1)), "cases": int(m.group(2)), "rules_without_sole_case": m.group(3)}
+    r["matrix"] = {"bases": int(m.group(1)), "cases": int(m.group(2))}
     if "TypeOK" in r["violated"]:
         raise vlib.ToolError("MC_CommitTx: TypeOK violated")
-    if m.group(3) != "{}":
-        raise vlib.ToolError("vacuity guard (matrix): rules that no case breaks on their own: %s" % m.group(3))
     r["cases_file"] = cases
     return r
 
